@@ -372,14 +372,21 @@ def putOperation (st : NodeSt) (op : NOp) : Option NodeSt :=
   if (visibleOps st).contains op then none
   else some { st with ops := visibleOps st ++ [op] }
 
-/-- `ProcessMessage` for ordinary (non-reinit) messages: `processMessage`, then `PutOperation` -/
+/-- the operation a message gives rise to is stored unless an identical one is already pending
+(`ErrOperationExists` is tolerated: the message is being handled again after a crash) -/
+def putOperationOnce (st : NodeSt) (op : NOp) : NodeSt :=
+  match putOperation st op with
+  | some st' => st'
+  | none => st
+
+/-- `ProcessMessage` for ordinary (non-reinit) messages. The operation is written just before the round
+state (fix "store the operation before the round state"); both writes belong to the successful end of
+`processMessage`, so the resulting state is `processMessage`'s with the operation added. The ORDER of the
+two writes matters only for crashes in between and is modelled in `Model/Crash.lean`. -/
 def processMessageTop (st : NodeSt) (m : NMsg) (now : Time) (payloadOf : Tasks.Msg → Bytes) : PMOut :=
   let r := processMessage st m now payloadOf
   match r.out, r.op with
-  | .ok, some op =>
-    match putOperation r.st op with
-    | some st' => { r with st := st' }
-    | none => { r with out := .reject }      -- the round state was already saved
+  | .ok, some op => { r with st := putOperationOnce r.st op }
   | _, _ => r
 
 /-- `ResetFSMState` / `state.Reset`: a new, empty state database; identity and switches are kept -/
